@@ -22,6 +22,7 @@ Definition caps_of (k : tykey) : caps :=
   | 5%N => {| is_codec := true; is_marshalable := true |}
   | 6%N => {| is_codec := false; is_marshalable := true |}
   | 7%N => {| is_codec := true; is_marshalable := false |}
+  | 13%N => {| is_codec := true; is_marshalable := false |}
   | _ => {| is_codec := false; is_marshalable := false |}
   end.
 Definition acc_codec (k : tykey) (_ : wire_err) : bool := negb (N.eqb (ty_name k) 7).
@@ -49,6 +50,7 @@ Definition mk_err (kind : N) (msg : bytes) (n : Z) : option errval :=
   | 8%N => ev (tk 8 true) None None
   | 9%N => ev (tk 10 true) None None
   | 10%N => ev (tk 10 false) None None
+  | 13%N => ev (tk 13 true) (Some (46%Z, msg, Some (JStr (bs "payload-" ++ z_lit n)%list))) None
   | 11%N | 12%N => Some {| ev_ty := tk 11 true; ev_msg := (bs "ctx: " ++ msg)%list; ev_codec := None; ev_meta := None |}
   | _ => None
   end.
@@ -78,7 +80,7 @@ Definition expect_fields (k : tykey) (p : option (wire_err + json)) (obs : json)
   | 3%N, Some (inr j) => json_eqb obs (JObj [(bs "M", match field "M" j with JNull => JStr [] | v => v end);
                                              (bs "N", match field "N" j with JNull => zn 0 | v => v end)])
   | 3%N, None => json_eqb obs (JObj [(bs "M", JStr []); (bs "N", zn 0)])
-  | 4%N, Some (inl w) => json_eqb (field "code" obs) (zn (we_code w)) && json_eqb (field "message" obs) (JStr (we_msg w))
+  | (4%N | 13%N), Some (inl w) => json_eqb (field "code" obs) (zn (we_code w)) && json_eqb (field "message" obs) (JStr (we_msg w))
                          && json_eqb (field "data" obs) (opt_json (we_data w))
   | 5%N, Some (inl w) => json_eqb (field "code" obs) (zn (we_code w)) && json_eqb (field "message" obs) (JStr (we_msg w))
                          && json_eqb (field "data" obs) (opt_json (we_data w)) && json_eqb (field "X" obs) (zn 0)
